@@ -24,6 +24,9 @@ CONFIGS = {
     "defaultK_cap": dict(prior=dict(sigma_K0=300.0), data=dict(n=5, layout="short", err="hetero")),
     "customK": dict(prior=dict(kind="custom", K_custom=(2.0, 25.0), mu_v=(1.0, 0, 0)), data=dict(n=4, layout="long", err="uniform")),
     "trend2_offset": dict(prior=dict(poly_trend=2, n_offsets=1, mu_v=(0.5, 0.01, 0)), data=dict(n=6, layout="short", err="hetero", n_surveys=2)),
+    # two surveys interleaved in time: the merged data are NOT time-sorted, so anything that rebuilds / re-sorts the data
+    # on its way to a worker (pickling) mislabels the offsets
+    "offset_interleaved": dict(prior=dict(poly_trend=1, n_offsets=1, off_sig=(6.0, 5.0)), data=dict(n=6, layout="short", err="uniform", n_surveys=2, interleave=True)),
 }
 
 
@@ -176,7 +179,13 @@ def exec_real(case, part):
                 ps = path
             else:
                 ps = lib
-            res = joker.rejection_sample(data, ps, n_batches=case["n_batches"], randomize_prior_order=True, return_logprobs=True)
+            res, all_ll = joker.rejection_sample(data, ps, n_batches=case["n_batches"], randomize_prior_order=True, return_logprobs=True,
+                                                 n_prior_samples=case.get("n_prior"), return_all_logprobs=True)
+            # which library rows were evaluated, in evaluation order (rows have distinct likelihoods)
+            evaluated = [int(np.argmin(np.abs(want - v))) for v in np.asarray(all_ll)]
+            if not np.array_equal(np.asarray(all_ll), want[evaluated]):
+                part.violation({k2: v for k2, v in case.items() if not k2.startswith("_")},
+                               "return_all_logprobs values are not the evaluated rows' own likelihoods", expected=want[evaluated], observed=all_ll)
             P = np.atleast_1d(res["P"].to_value(u.day))
             acc = [int(np.argmin(np.abs(ROWS[:, 0] - p))) for p in P]
             ll = np.asarray(res["ln_likelihood"], dtype=float)
@@ -189,8 +198,24 @@ def exec_real(case, part):
                                    "(values are not in input order)", expected=(want[i], -i - 100.0), observed=(ll[k], lp[k]))
                     break
             # identical accepted list on every file-path variant for equal seeds
-            key = case["config"]
-            first = _RAND_ACC.setdefault(key, acc)
+            key = (case["config"], case.get("n_prior"))
+            if key not in _RAND_ACC:
+                # canonical execution for this (configuration, n_prior): user file, default batching, same seed
+                import schwimmbad
+
+                cj = tj.TheJoker(prior, pool=schwimmbad.SerialPool(), rng=np.random.default_rng(case.get("seed", 5)), tempfile_path=scratch)
+                cpath = os.path.join(scratch, f"canon-{os.getpid()}.hdf5")
+                lib.write(cpath, overwrite=True)
+                cres, call = cj.rejection_sample(data, cpath, randomize_prior_order=True, return_logprobs=True, n_prior_samples=case.get("n_prior"),
+                                                 return_all_logprobs=True)
+                os.unlink(cpath)
+                cP = np.atleast_1d(cres["P"].to_value(u.day))
+                _RAND_ACC[key] = ([int(np.argmin(np.abs(ROWS[:, 0] - p))) for p in cP], [int(np.argmin(np.abs(want - v))) for v in np.asarray(call)])
+            first = _RAND_ACC[key]
+            if evaluated != first[1]:
+                part.violation({k2: v for k2, v in case.items() if not k2.startswith("_")},
+                               "with equal seeds the prior samples evaluated (randomised subset) differ between execution paths", expected=first[1], observed=evaluated)
+            first = first[0]
             if acc != first:
                 part.violation({k2: v for k2, v in case.items() if not k2.startswith("_")},
                                "accepted set with equal seeds (randomised order) differs between execution paths", expected=first, observed=acc)
@@ -294,6 +319,8 @@ def build(quick):
                     nbs = [None, 2, N + 1]
                 for nb in nbs:
                     real.append(dict(kind="real", config=cfg, api=api, path=path, n_batches=nb, pool=["serial"]))
+                    if api == "rej_rand":
+                        real.append(dict(kind="real", config=cfg, api=api, path=path, n_batches=nb, pool=["serial"], n_prior=N - 2))
         # ModelPool x real kernel: a slice (each chunk rebuilds a helper ~1 s)
         for nb, pool in ((3, ["model", 2, 2, True]), (None, ["model", 3, 1, False])) if quick else \
                 ((3, ["model", 2, 2, True]), (None, ["model", 3, 1, False]), (6, ["model", 2, 4, True]), (2, ["model", 5, 1, True])):
@@ -320,7 +347,7 @@ def multipool_conformance(chk, quick):
     sizes = (2,) if quick else (2, 3)
     for size in sizes:
         with schwimmbad.MultiPool(processes=size) as pool:
-            for cfg in (["defaultK_cap"] if quick else list(CONFIGS)):
+            for cfg in (["defaultK_cap", "offset_interleaved"] if quick else list(CONFIGS)):
                 for api, nb in (("mll", None), ("rej", 3)) if quick else (("mll", None), ("mll", 4), ("rej", 3), ("rej", None)):
                     case = dict(kind="real", config=cfg, api=api, path="obj", n_batches=nb, pool=["multipool", size], _pool=pool)
                     before = len(part.violations)
@@ -348,7 +375,17 @@ def main():
     fast = [h for h in hists if not any(o[0] == "dill" for o in h[1])]
     chk.merge(core.parallel(shard_hist, core.interleave(slow, core.NPROC)))
     chk.merge(core.parallel(shard_hist, core.interleave(fast, core.NPROC * 2)))
-    chk.merge(core.parallel(shard_exec, core.interleave(real, core.NPROC)))
+    # the randomised-order cases of one (configuration, n_prior) are compared with each other (object cache vs user file vs
+    # batching): keep each group inside one worker process
+    groups = {}
+    rest = []
+    for c in real:
+        if c["api"] == "rej_rand":
+            groups.setdefault((c["config"], c.get("n_prior")), []).append(c)
+        else:
+            rest.append(c)
+    chk.merge(core.parallel(shard_exec, list(groups.values())))
+    chk.merge(core.parallel(shard_exec, core.interleave(rest, core.NPROC)))
     chk.merge(core.parallel(shard_exec, core.interleave(stub, core.NPROC)))
     chk.merge(multipool_conformance(chk, chk.quick))
     if chk.total.extra.get("caps"):
